@@ -77,6 +77,10 @@ func (c *TableMetaCache) GetTableMeta(ctx context.Context, dbName, tableName str
 		return nil, fmt.Errorf("table name is empty")
 	}
 
+	// the statement may give the table an alias: t AS a, t a
+	if i := strings.IndexAny(tableName, " \t\n"); i > 0 {
+		tableName = tableName[:i]
+	}
 	// the statement may name the table together with its database: db.table, `db`.`table`
 	if i := strings.LastIndex(tableName, "."); i >= 0 {
 		if qualifier := strings.Trim(tableName[:i], "`"); qualifier != "" {
